@@ -108,7 +108,7 @@ def env_for(variant, extra=None, tsan_log=None):
     e = dict(os.environ)
     e.update(SAN_ENV)
     if variant.startswith("tsan"):
-        e["TSAN_OPTIONS"] = "halt_on_error=0:second_deadlock_stack=1:history_size=4:report_signal_unsafe=0" + (":log_path=" + tsan_log if tsan_log else "")
+        e["TSAN_OPTIONS"] = "halt_on_error=0:exitcode=0:second_deadlock_stack=1:history_size=4:report_signal_unsafe=0" + (":log_path=" + tsan_log if tsan_log else "")
     if extra:
         e.update(extra)
     return e
@@ -238,6 +238,13 @@ def run_jobs(ctx, jobs, timeout, workers=16, san_prop=None, on_result=None):
     results = []
 
     def one(job):
+        if job.get("tsan_log"):
+            import glob
+            for fn in glob.glob(job["tsan_log"] + ".*"):
+                try:
+                    os.unlink(fn)
+                except OSError:
+                    pass
         env = env_for(job.get("variant", "asan"), job.get("env"), job.get("tsan_log"))
         r = run(job["cmd"], job.get("timeout", timeout), env=env, stdin=job.get("stdin"))
         if r.timed_out:
